@@ -372,17 +372,25 @@ class World:
         for f in self.mod.defined():
             if len(f.blocks) > 6 or f.d["ret"] != "i1": continue
             stores = [i for i in f.insts() if i.op == "store"]
-            if not stores or any(i.op == "call" and not (i.get("callee") or "").startswith("llvm.dbg") for i in f.insts()): continue
+            if not stores or any(i.op == "call" and not (i.get("callee") or "").startswith(("llvm.dbg", "llvm.umul.with.overflow")) for i in f.insts()): continue
             ks = set(); pair = set(); ok = True
+            def product_of_args(v, d=0):
+                """0, arg_i * arg_j (plain or as the value half of __builtin_mul_overflow), or a merge of those"""
+                if v["k"] == "int": return int(v["v"]) == 0
+                if v["k"] != "inst" or d > 3: return False
+                m = f.imap[v["v"]]
+                if m.op == "extractvalue" and m.get("indices") == [0] and m.ops[0]["k"] == "inst": m = f.imap[m.ops[0]["v"]]
+                if m.op == "mul" or (m.op == "call" and (m.get("callee") or "").startswith("llvm.umul.with.overflow")):
+                    fac = m.ops[:2]
+                    if all(o["k"] == "arg" for o in fac): pair.add(tuple(sorted(o["v"] for o in fac))); return True
+                    return False
+                if m.op == "phi": return all(product_of_args(c["v"], d + 1) for c in m["incoming"])
+                return False
             for st in stores:
                 a = st.ops[1]
                 if a["k"] != "arg": ok = False; break
                 ks.add(a["v"])
-                v = st.ops[0]
-                if v["k"] == "int" and int(v["v"]) == 0: continue
-                if v["k"] == "inst" and f.imap[v["v"]].op == "mul":
-                    m = f.imap[v["v"]]
-                    if all(o["k"] == "arg" for o in m.ops): pair.add(tuple(sorted(o["v"] for o in m.ops))); continue
+                if product_of_args(st.ops[0]): continue
                 ok = False; break
             if ok and len(ks) == 1 and len(pair) == 1:
                 (i, j), = pair; out[f.name] = (ks.pop(), i, j)
